@@ -266,7 +266,7 @@ def c02_4(ctx):
         def allowed(l):
             return l == ('isinstance', 'lobj', 'LabelLine', True) or (l[0] == 'truthy' and l[2] and (
                 'compilable' in l[1] or 'is_constant' in l[1] or l[1] == 'lobj._value is not None')) \
-                or l[0] in ('ge', 'eq', 'ne')   # `len(line_str) > 0`: blank lines carry nothing
+                or l == ('truthy', 'line_str', True)   # `len(line_str) > 0`: blank lines carry nothing
         ok = ('isinstance', 'lobj', 'LabelLine', True) in lits and any(l[0] == 'truthy' and 'compilable' in l[1] and l[2] for l in lits) \
             and any(l[0] == 'truthy' and 'is_constant' in l[1] and l[2] for l in lits)
         extra = [l for cc in cl for l in cc if not allowed(l)] + [cc for cc in cl if len(cc) != 1]
@@ -335,6 +335,8 @@ def c02_5(ctx):
         if l[0] == 'isnone':
             return isinstance(l[1], str) and l[1].startswith('self._')
         if l[0] == 'isinstance':
+            return True
+        if l[0] == 'truthy' and l[1] == 'self._bytes':     # `len(self._bytes) == 0`: not generated twice
             return True
         if l[0] in ('ge', 'eq', 'le', 'ne', 'gt', 'lt') and isinstance(l[1], tuple):
             try:
@@ -534,11 +536,19 @@ def c02_zone_of_line(ctx):
     zone_provenance(ctx)
 
 
-RULES = [c02_1, c02_2, c02_3, c02_4, c02_5, c02_6, c02_macro_sizes, c02_zone_of_line]
+def c02_predefined(ctx):
+    """Constants of the ISA definition have the value written there."""
+    from rules.shared import cfg_accessors, cfg_constants
+    cfg_accessors(ctx, only=('predefined_constants',))
+    cfg_constants(ctx)
+
+
+RULES = [c02_predefined, c02_1, c02_2, c02_3, c02_4, c02_5, c02_6, c02_macro_sizes, c02_zone_of_line]
 
 _E = 'assembler/engine.py'
 _FD = 'assembler/line_object/directive_line/fill_data.py'
 MUTANTS = [
+    V('c02-predefined-constant-name-as-value', 'assembler/model/__init__.py', "                value: int = predefined_constant['value']", "                value: int = predefined_constant.get('address', predefined_constant['value'])", 'CFG.3'),
     V('c02-bind-before-address', _E, '''            lobj.set_start_address(lobj.memory_zone.current_address)
             if lobj.address is None:''', '''            if isinstance(lobj, LabelLine) and not lobj.is_constant:
                 lobj.label_scope.set_label_value(lobj.get_label(), lobj.get_value(), lobj.line_id)
